@@ -38,6 +38,7 @@ type Profile struct {
 	Codes              []int
 	NoFinishExits      bool
 	ShutdownCfg        bool // some processes carry a shutdown.command or a shutdown.timeout_seconds
+	ReplicatedLeaves   bool // processes nobody depends on may have 2-3 replicas
 }
 
 // OnExclude is told when the generator avoids the class of a known finding by construction.
@@ -122,6 +123,9 @@ func GenProject(t *rapid.T, pr Profile) *sc.Scenario {
 				}
 				if pr.BackoffMax > 0 {
 					p.Backoff = irange(t, 0, pr.BackoffMax, "backoff")
+					if pct(t, 12, "negative-backoff") {
+						p.Backoff = -irange(t, 1, 3, "negbackoff") // nothing validates the field: the minimum of one second applies
+					}
 				}
 				if p.Restart == "always" && p.MaxRestarts == 0 {
 					p.MaxRestarts = irange(t, 0, 3, "maxr2") // mostly bounded, sometimes endless
@@ -190,6 +194,20 @@ func GenProject(t *rapid.T, pr Profile) *sc.Scenario {
 			p.Deps = append(p.Deps, sc.Dep{On: nm[j], Cond: c})
 		}
 		s.Procs = append(s.Procs, p)
+	}
+	if pr.ReplicatedLeaves {
+		// (dependencies on replicated processes are rejected by the loader: leaves only)
+		target := map[string]bool{}
+		for _, p := range s.Procs {
+			for _, d := range p.Deps {
+				target[d.On] = true
+			}
+		}
+		for i := range s.Procs {
+			if !target[s.Procs[i].Name] && len(s.Procs[i].Deps) > 0 && pct(t, 30, "replicated-leaf") {
+				s.Procs[i].Replicas = irange(t, 2, 3, "leafreplicas")
+			}
+		}
 	}
 	nf := irange(t, 1, 3, "nfin")
 	for i := 0; i < nf; i++ {
